@@ -90,6 +90,37 @@ def cases(rng, tier):
     for _ in range(800 if tier == "quick" else 10000):
         yield {"op": "C20.wrap", "tag": "pystmt", "line": rand_py_stmt(rng), "level": rng.randint(0, 4),
                "width": rng.choice([20, 30, 40, 60, 80]), "lang": "python"}
+    yield from emit_cases(rng, tier)
+
+
+def emit_cases(rng, tier):
+    """lines as the Fortran generator emits them (leading blanks = level), pushed through the REAL per-line emission path
+    CodeGenerator.get_code: comment lines pass unchanged, every other line - also one with a '!' inside a string or behind
+    the statement - is wrapped at the default width"""
+    for _ in range(400 if tier == "quick" else 5000):
+        toks = [rng.choice([rand_token(rng), "'a ! b'", "'x != y'", "write(*,*)", "'!'", "v_" + "z" * rng.randint(1, 12)])
+                for _ in range(rng.randint(1, 18))]
+        body = " ".join(toks)
+        r = rng.random()
+        if r < 0.1:
+            body = "! " + body
+        elif r < 0.2:
+            body = body + " ! trailing comment"
+        yield {"op": None, "tag": "fortran-emit", "line": " " * rng.randint(0, 8) + body, "lang": "fortran-emit",
+               "level": 0, "width": 80}
+
+
+_gen = {}
+
+
+def fortran_get_code(line):
+    import types
+    if "g" not in _gen:
+        import fortran_common as fc
+        _gen["g"] = fc.make_generator()
+    g = _gen["g"]
+    g.module_emitter = types.SimpleNamespace(preamble=[], code=[line])
+    return g.get_code().split("\n")
 
 
 def exhaustive(tier):
@@ -109,6 +140,11 @@ def wrapper(lang):
 
 
 def impl(case):
+    if case["lang"] == "fortran-emit":
+        try:
+            return {"ok": fortran_get_code(case["line"])}
+        except ValueError:
+            return {"err": "ValueError"}
     w, indent, marker = wrapper(case["lang"])
     try:
         return {"ok": w(case["line"], level=case["level"], width=case["width"], indentation=indent)}
@@ -146,6 +182,21 @@ def ref_tokens(line, lang):
 
 def oracle(case, out):
     lang = case["lang"]
+    if lang == "fortran-emit":
+        line = case["line"]
+        if line.lstrip(" ").startswith("!"):
+            if out.get("ok") != [line]:
+                return {"what": f"a comment line was changed by the emission path: {out}", "sig": "emit-comment"}
+            return None
+        # the emitted lines carry their indentation already
+        lead = len(line) - len(line.lstrip(" "))
+        sub = dict(case, lang="fortran", line=line[lead:], level=0, width=80)
+        if "ok" in out:
+            if any(not ln.startswith(" " * lead) for ln in out["ok"]):
+                return {"what": "an emitted line lost the indentation of its statement", "sig": "emit-indent"}
+            out = {"ok": [ln[lead:] for ln in out["ok"]]}
+            sub["level"] = lead          # one blank per level
+        return oracle(sub, out)
     _, indent, marker = wrapper(lang)
     want = ref_tokens(case["line"], lang)
     if "err" in out:
